@@ -193,7 +193,7 @@ for line in sys.stdin:
 
 
 def run_scenario(ws, scn, d, tokens=None, measure_threads=False, trace=False, yield_seed=None,
-                 out_name=None, modify=None, extra_args=()):
+                 out_name=None, modify=None, extra_args=(), measure_at="written"):
     """Perform the real link for `scn` in directory d. Returns the observed outcome dict."""
     d = Path(d)
     d.mkdir(parents=True, exist_ok=True)
@@ -232,7 +232,7 @@ def run_scenario(ws, scn, d, tokens=None, measure_threads=False, trace=False, yi
     pause_dir = None
     if scn["faultAt"] != "none":
         env["WILD_VERIF_FAULT"] = f"{scn['faultAt']}:{scn['faultKind']}"
-    pause_at = scn["changeAt"] if scn["changeAt"] != "none" else ("written" if measure_threads else None)
+    pause_at = scn["changeAt"] if scn["changeAt"] != "none" else (measure_at if measure_threads else None)
     if pause_at:
         pause_dir = d / "pause"
         pause_dir.mkdir()
@@ -289,12 +289,17 @@ def run_scenario(ws, scn, d, tokens=None, measure_threads=False, trace=False, yi
                          pass_fds=pass_fds)
     sid = p.pid
     nthreads = None
+    tokens_at_pause = None
     modified = None
     if pause_dir is not None:
         reached = pause_dir / "reached"
-        while not reached.exists() and p.poll() is None and time.time() - t0 < 30:
+        # a point after the worker informed its parent is reached when the top-level process may already be gone
+        late = pause_at in ("pre_inform", "post_inform")
+        while not reached.exists() and time.time() - t0 < 30 and (p.poll() is None or (late and session_pids(sid))):
             time.sleep(0.002)
         if reached.exists():
+            if measure_threads and tokens is not None:
+                tokens_at_pause = struct.unpack("i", fcntl.ioctl(jr, termios.FIONREAD, struct.pack("i", 0)))[0]
             if measure_threads:
                 worker = max(session_pids(sid) or [p.pid])
                 try:
@@ -352,7 +357,7 @@ def run_scenario(ws, scn, d, tokens=None, measure_threads=False, trace=False, yi
         "outClass": out_class, "outInode": out_ino,
         "sibling": "intact" if sibling.exists() and sibling.read_bytes() == sibling_bytes else "destroyed",
         "touched": sorted(touched),
-        "tokens_left": tokens_left, "nthreads": nthreads,
+        "tokens_left": tokens_left, "nthreads": nthreads, "tokens_at_pause": tokens_at_pause, "measured_at": pause_at,
         "holder_unchanged": (holder_sum0 == holder_sum1) if holder_proc is not None else None,
         "link_target_unchanged": (link_target.exists() and link_target.read_bytes() == prior_bytes) if link_target is not None else None,
         "stderr": se.decode("utf-8", "replace")[-600:], "args": args,
